@@ -487,7 +487,7 @@ pub fn check_must_reject(rng: &mut Rng, corpus: &[String], rep: &mut Report) {
 
 pub fn run(ctx: &Ctx) -> Report {
     let corpus = patgen::load_corpus();
-    let n = ctx.cases(3000, 150_000);
+    let n = ctx.cases(20_000, 600_000);
     let thorough = ctx.is_thorough();
     crate::par_cases(ctx, 11, n, |rng, i, rep| {
         if i % 10 == 9 {
